@@ -28,12 +28,13 @@ def page_name(k):
 NOTE = re.compile(r"^- (?:\d{6} )?(?:\d{6}#\w{2,3} )?note\d+ r(\d+)$")
 
 
-def note_line(serial):
+def note_line(serial, rich=True):
     serial[0] += 1
     n = serial[0]
     tags = (" %%u%d" % n if n % 2 else "") + (" #shared" if n % 3 == 0 else "") + (" +solo%d" % n if n % 5 == 0 else "")
     # properties and page links (rows in their own SQL tables, removed and re-added with the note)
-    tags += (" k::%d" % n if n % 3 == 1 else "") + (" [[target]] [[l%d]]" % (n % 4) if n % 2 == 0 else "")
+    if rich:      # only on pages with an even number: the others stay free of properties
+        tags += (" k::%d" % n if n % 3 == 1 else "") + (" [[target]] [[l%d]]" % (n % 4) if n % 2 == 0 else "")
     # every fourth note has a bullet line (with a double space) under its first line
     more = "\n  * bullet  of note%d" % n if n % 4 == 1 else ""
     return "- note%d%s r1" % (n, tags) + more
@@ -44,7 +45,7 @@ def page_text(k, n_notes, serial):
     # notes of the page (they inherit it) and hence in the index-vs-files observation
     lines = ["# page %d #hv0" % k, ""]
     for _ in range(n_notes):
-        lines.append(note_line(serial))
+        lines.append(note_line(serial, k % 2 == 0))
     return "\n".join(lines) + "\n\n"
 
 
@@ -77,7 +78,7 @@ def apply_real(d, op, serial, day):
             del lines[i:i + span(lines, i)]
         elif tag == "addnote":
             pos = (idx[-1] + span(lines, idx[-1])) if idx else 2
-            lines[pos:pos] = note_line(serial).split("\n")
+            lines[pos:pos] = note_line(serial, op[1] % 2 == 0).split("\n")
         elif tag == "header":
             m = re.search(r" #hv(\d+)$", lines[0])
             lines[0] = lines[0][:m.start()] + " #hv%d" % (int(m.group(1)) + 1)
